@@ -179,3 +179,27 @@ fn c19_powf_special_cases() {
     assert!(powf(0.5, 1.0) == 0.5);
     reach!();
 }
+
+//@ob prop=C19,C12 fn="enhanced_float::powf" at=src/enhanced_float.rs:5 clause="(no_std + libm builds) A4, first half, proved instead of assumed for this back end: powf(x, 0) == 1 and powf(x, -0) == 1 for EVERY f32 x (NaN and infinities included), so the EWMA's first sample (dt = 0) gets weight 1 - powf(1 - s, 0) = 0 of the old value" configs=libm_nocheck,libm_check
+#[kani::proof]
+#[kani::unwind(40)]
+fn c19_powf_zero_exponent_is_one() {
+    use crate::enhanced_float::powf;
+    let x: f32 = kani::any();
+    assert!(powf(x, 0.0) == 1.0);
+    assert!(powf(x, -0.0) == 1.0);
+    reach!();
+}
+
+//@ob prop=C19,C12 tier=thorough fn="enhanced_float::powf" at=src/enhanced_float.rs:5 clause="(no_std + libm builds) A4, second half, for this back end: 0 <= powf(x, y) <= 1 for every 0 <= x <= 1 and y >= 0 (so the EWMA weight 1 - powf(1 - s, dt) stays in [0, 1])" configs=libm_nocheck
+#[kani::proof]
+#[kani::unwind(40)]
+fn c19_powf_unit_interval() {
+    use crate::enhanced_float::powf;
+    let x: f32 = kani::any();
+    let y: f32 = kani::any();
+    kani::assume(x >= 0.0 && x <= 1.0 && y >= 0.0);
+    let r = powf(x, y);
+    assert!(r >= 0.0 && r <= 1.0);
+    reach!();
+}
